@@ -80,10 +80,11 @@ OpNames == <<"saveload", "savedir", "dirarch", "package">>
 CheckOf(x) == CASE x = "saveload" -> "C15_SaveLoad" [] x = "savedir" -> "C15_SaveDir"
                 [] x = "dirarch" -> "C15_DirVsArchive" [] OTHER -> "C15_Package"
 
+\* (d.tpldot is lexical: the name is a dotfile directly in templates/, i.e. it matches the default rule templates/.?*)
 Excused(o, x, d) ==
   /\ x \in {"savedir", "dirarch"}
-  /\ ExpectRoundTrip(o.chart, "dir").templates = "equal-but-ignored"
-  /\ d.field = "templates" /\ d.kind = "missing" /\ d.class = "tpldot" /\ d.chart = ""
+  /\ d.field = "templates" /\ d.kind = "missing" /\ d.chart = "" /\ d.tpldot
+  /\ (d.class = "tpldot" => ExpectRoundTrip(o.chart, "dir").templates = "equal-but-ignored")
 
 \* shapes of the recorded findings (DESIGN 2.5): anything else that differs is a violation
 \* (a lock missing after SaveDir -> LoadDir was such a shape until /repo e39bb76 repaired it: now a plain violation)
